@@ -18,6 +18,7 @@ LO1 = 'cflib/crazyflie/mem/loco_memory.py'
 LO2 = 'cflib/crazyflie/mem/loco_memory_2.py'
 CFGM = 'cflib/localization/lighthouse_config_manager.py'
 PIO = 'cflib/localization/param_io.py'
+MEM_PATHS = [I2C, OW, LO1, LO2, 'cflib/crazyflie/mem/led_driver_memory.py', 'cflib/crazyflie/mem/led_timings_driver_memory.py', 'cflib/crazyflie/mem/trajectory_memory.py']
 
 EXPLANATION = (
     'Writer/reader layout agreement by static comparison of struct formats, slice bounds, field order and source/destination '
@@ -52,8 +53,47 @@ def sl(node, f):
     return None
 
 
+def complete_before_callback_rules(ctx, rule, paths):
+    """An image is handed to the application when its finished-callback runs: `valid`, the parsed fields and every other result
+    attribute have to be stored before that call.  After it only the callback slots themselves may be cleared (`= None`)."""
+    m = ctx.model
+    n = 0
+    for path in paths:
+        for f in m.mod(path).all_funcs():
+            if f.cls is None:
+                continue
+            calls = []
+            for c in walk_own(f.node):
+                if isinstance(c, ast.Call) and isinstance(c.func, ast.Attribute) and norm(c.func.value) == 'self' and c.func.attr.endswith('_finished_cb'):
+                    calls.append(c)
+            if not calls:
+                continue
+            late = []
+            for c in calls:
+                # the statements that follow the call in its own block (the paths through enclosing blocks depend on values:
+                # `if done:` after a branch that left done False)
+                for holder in ast.walk(f.node):
+                    for fld in ('body', 'orelse', 'finalbody'):
+                        blk = getattr(holder, fld, None)
+                        if not isinstance(blk, list):
+                            continue
+                        idx = [i for i, st in enumerate(blk) if isinstance(st, ast.Expr) and st.value is c]
+                        for st in (blk[idx[0] + 1:] if idx else []):
+                            for x in ast.walk(st):
+                                if isinstance(x, (ast.Assign, ast.AugAssign)):
+                                    tg = x.targets if isinstance(x, ast.Assign) else [x.target]
+                                    if any(isinstance(t, ast.Attribute) and norm(t.value) == 'self' and not t.attr.endswith('_cb') for t in tg) and \
+                                            not (isinstance(x, ast.Assign) and isinstance(x.value, ast.Constant) and x.value.value is None):
+                                        late.append('%s (line %d)' % (norm(x)[:40], x.lineno))
+            n += 1
+            ctx.inst(rule, f, 'result-complete-before-callback', not late, 'stored after the finished-callback has run: %s' % (sorted(set(late)) or 'nothing'))
+    return n
+
+
 def check(ctx):
     m = ctx.model
+    nb = complete_before_callback_rules(ctx, 'R2', [p_ for p_ in MEM_PATHS if m.exists(p_)])
+    ctx.need(nb >= 8, 'finished-callback sites: expected at least 8 functions, found %d' % nb)
 
     # =========================== R1 / R2: EEPROM ======================================
     wr = m.func(I2C, 'I2CElement.write_data')
@@ -537,6 +577,7 @@ def tlv_by_offset(par, loop):
 
 
 VARIANTS = [
+    M('R2', OW, "                        self.valid = True\n                        self._update_finished_cb(self)\n                        self._update_finished_cb = None\n                    else:\n                        # We need to fetch the elements", "                        self._update_finished_cb(self)\n                        self._update_finished_cb = None\n                        self.valid = True\n                    else:\n                        # We need to fetch the elements", 'valid set after the callback'),
     M('R7', LO2, "            self._update_active_ids_finished_cb = update_active_ids_finished_cb\n            self.active_anchor_ids = []\n", "            self._update_active_ids_finished_cb = update_active_ids_finished_cb\n", 'active id list keeps the previous poll'),
     M('R7', DK, "                self.name = _name.split(b'\\x00')[0].decode()", "                self.name = _name[:_name.index(b'\\x00')].decode()", 'name needs a terminator'),
     M('R8', 'cflib/crazyflie/mem/led_timings_driver_memory.py', "            if (timing['time'] & 0xFF) != 0 or led != 0 or extra != 0:", "            if timing['time'] != 0 or led != 0 or extra != 0:", 'filter tests the unmasked time'),
